@@ -490,6 +490,20 @@ def parent(modname: str, tier: str, seed: int, only: str | None, nshards_opt: in
     # ---- verdict
     lines: list[str] = []
     violations = dict(merged.violations)
+    # Verdicts that rest on a wall-clock limit (a module lists their prefixes in CONFIRM_ALONE) are only suspicions
+    # while sixteen shards keep every core busy: each is replayed here, in this otherwise idle process, after all
+    # shards have ended.  What does not reproduce is reported as a message, not as a violation.
+    for sig in [s for s in violations if any(s.startswith(p) for p in getattr(mod, "CONFIRM_ALONE", ()))]:
+        v = violations[sig]
+        try:
+            again = replay_case(mod, v["engine"], v["case"])
+            confirmed = any(s2 == sig for s2, _ in again.violations)
+        except Exception as exc:      # noqa: BLE001
+            confirmed = True
+            merged.messages.append(f"confirmation replay of {sig} failed: {exc!r}")
+        if not confirmed:
+            del violations[sig]
+            merged.messages.append(f"time-limit suspicion not confirmed when replayed alone: {sig}")
     # regression tier: fixed entries must stay fixed; open entries print KNOWN-FINDING
     for r in regress:
         ent = findings.by_id(r["id"])
